@@ -97,7 +97,14 @@ def _removal_focus(R: Draw, g, rs, doc: dict):  # noqa: ANN001, ANN202
     path = R.choice(blocks)
     tb = mu.get_at(doc, path)
     pieces = []
-    for i in range(R.int(2, 3)):
+    if R.bool(0.3):
+        # one text node carrying as many marks as the parent allows, the range will start inside it
+        cur: list = []
+        for name in R.shuffle(rs.mark_names):
+            if rs.allows_mark(tb["t"], name):
+                cur = rm.ref_add(rs, g.mark(R, name), cur)
+        pieces.append(P.mk("text", {}, None, cur, "abcdef"))
+    for i in range(R.int(1 if pieces else 2, 3)):
         marks = rm.ref_add(rs, g.mark(R, m), g.mark_set(R, tb["t"], 0.3))
         pieces.append(P.mk("text", {}, None, marks, R.choice(["xx", "y", "zzz"])))
     if "text" not in rx.first(rs.content[tb["t"]]):
